@@ -5,7 +5,7 @@
     instance on every run. *)
 From Coq Require Import NArith ZArith QArith Qabs List Bool.
 From SV Require Import Bin.Struct Fmt.DmxCodes Fmt.DmxCodesProofs Fmt.DmxBin Fmt.DmxBinProofs Fmt.DmxKv1 Fmt.DmxKv1Proofs
-  Fmt.DmxScalar Fmt.DmxScalarProofs Fmt.DmxTyped Fmt.DmxTypedProofs Text.Str Text.Escape Text.Tokenizer Text.TokGen Fmt.DmxKv2 Fmt.DmxKv2Proofs Fmt.DmxKv2Nested Fmt.DmxKv2NestedProofs Fmt.DmxKv2Inst Num.Dec6 Fmt.DmxValText Fmt.DmxValTextProofs Fmt.DmxHeader Fmt.DmxHeaderProofs Gen.DmxCodes_gen.
+  Fmt.DmxScalar Fmt.DmxScalarProofs Fmt.DmxTyped Fmt.DmxTypedProofs Text.Str Text.Escape Text.Tokenizer Text.TokGen Fmt.DmxKv2 Fmt.DmxKv2Proofs Fmt.DmxKv2Nested Fmt.DmxKv2NestedProofs Fmt.DmxKv2Inst Num.Dec6 Fmt.DmxValText Fmt.DmxValTextProofs Fmt.DmxHeader Fmt.DmxHeaderProofs Fmt.DmxMembers Fmt.DmxMembersProofs Gen.DmxCodes_gen.
 Import ListNotations.
 
 (** The premises of the theorems below, for the configuration generated from today's source.  The check proves
@@ -16,7 +16,7 @@ Definition c14_instance_premises : bool :=
   kv2_tables_ok gen_tables && kv2_opts_ok gen_kv2_opts && vtnames_ok gen_tables gen_fold gen_vtnames &&
   float_text_cfg_ok gen_float_fmt && vec_text_components_ok gen_vec_text_written gen_vec_text_read &&
   color_text_ok gen_color_text_written gen_color_text_read &&
-  hdr_bin_ok gen_hdr && hdr_kv2_ok gen_hdr && hdr_modes_ok gen_hdr.
+  hdr_bin_ok gen_hdr && hdr_kv2_ok gen_hdr && hdr_modes_ok gen_hdr && cnt_cfg_ok gen_cnt.
 
 (** The attribute type byte: encode then decode gives back the value type and the scalar/array flag, for all 14
     types and both shapes. *)
@@ -332,3 +332,76 @@ Proof. exact hdr_example. Qed.
 Theorem unicode_marker_forgotten_refuted :
   (hdr_bin_ok unmarked_hdr = false) /\ (reader_bin_utf8 unmarked_hdr UFormat = false) /\ (hb_utf8 unmarked_hdr UFormat = true).
 Proof. exact hdr_unmarked_refuted. Qed.
+
+(** * The element's dict of members below the binary document (round 3)
+
+    [Fmt/DmxBin.v] gives an element a name and a list of attribute records.  The implementation holds one ordered dict,
+    keyed by the casefolded attribute name, in which the name is the member keyed "name" — removable through the public
+    mapping API (clear, del, pop, popitem) and re-addable anywhere (the name setter, an attribute assigned as 'NAME').
+    [export_binary] writes a count and then one record per member its loop does not skip; count expression and skip
+    tests are read from the source ([cntcfg]). *)
+
+(** The count written is the number of records written, for every dict with pairwise distinct keys — with or without
+    the "name" member, wherever it sits.  ([cnt_cfg_ok]: the count is len(elem) - ('name' in elem._members) or the number
+    of members keyed other than "name"; both loops skip exactly the key "name"; Element.name reads that member, "" if
+    missing.) *)
+Theorem attr_count_is_records_written : forall c m, cnt_cfg_ok c = true -> keys_nodup m ->
+  count_written c m = Z.of_nat (length (records (cc_write_filter c) m)).
+Proof. exact count_is_records. Qed.
+
+(** Every operation of the mapping API (clear, del, pop, popitem, the name setter, item assignment, setdefault — for any
+    casefold function) keeps the keys pairwise distinct; hence so does every history on a fresh element. *)
+Theorem element_api_keeps_keys_distinct : forall fold m op, keys_nodup m -> keys_nodup (apply_op fold m op).
+Proof. exact apply_op_keys_nodup. Qed.
+Theorem element_api_history_keys_distinct : forall fold ops name, keys_nodup (run_ops fold ops (init_members name)).
+Proof. exact history_keys_nodup. Qed.
+
+(** For every API history on a fresh element the count written equals the records written. *)
+Theorem attr_count_is_records_after_any_history : forall c fold ops name, cnt_cfg_ok c = true ->
+  let m := run_ops fold ops (init_members name) in
+  count_written c m = Z.of_nat (length (records (cc_write_filter c) m)).
+Proof. exact history_count_is_records. Qed.
+
+(** The bytes written from the real dicts are the bytes of the document they denote (name = the "name" member or "",
+    attributes = the other members in dict order) ... *)
+Theorem members_export_is_document_export :
+  forall (cenc : enc -> str -> bytes) (cfg : dmxcfg) (cc : cntcfg), cnt_cfg_ok cc = true ->
+  forall v rd, Forall (fun r => keys_nodup (r_members r)) rd ->
+    export_raw cenc cfg cc v rd = export_bin cenc cfg v (map (abstract cc) rd).
+Proof. exact export_raw_is_export_bin. Qed.
+
+(** ... and parse back to it (composition with [dmx_bin_roundtrip]), versions 0-5. *)
+Theorem dmx_bin_members_roundtrip :
+  forall (cenc : enc -> str -> bytes) (cdec : enc -> bytes -> option str) (cfg : dmxcfg) (cc : cntcfg), cnt_cfg_ok cc = true ->
+  forall v rd, bin_cfg_ok cfg = true -> Forall (fun r => keys_nodup (r_members r)) rd ->
+    expressible cenc cdec cfg v (map (abstract cc) rd) ->
+    parse_bin cdec cfg v (export_raw cenc cfg cc v rd) = Some (map (abstract cc) rd).
+Proof. exact members_bin_roundtrip. Qed.
+
+(** Satisfiable: the configuration of the repaired tree, and a two-element graph whose root was cleared and refilled
+    (no "name" member) and whose child had its name popped and set again (name member last), versions 5 and 1. *)
+Theorem members_premises_satisfiable :
+  cnt_cfg_ok good_cnt = true /\
+  map (fun r => (has_key s_name (r_members r), length (r_members r))) hist_rdoc = [(false, 2%nat); (true, 2%nat)] /\
+  (forall v, v = 5%N \/ v = 1%N ->
+     parse_bin iddec good_cfg v (export_raw idenc good_cfg good_cnt v hist_rdoc) = Some (map (abstract good_cnt) hist_rdoc)).
+Proof. split; [exact good_cnt_ok | split; [exact (proj1 hist_rdoc_shape) | exact members_roundtrip_example]]. Qed.
+
+(** [len(elem) - 1] (the class of seeded fault c14_3) fails exactly [count_expr_ok]: after "clear, then assign" the count
+    is one less than the records, the exported graph is not read back; untouched elements are written as before. *)
+Theorem attr_count_minus_one_refuted :
+  count_expr_ok minus_one_cnt = false /\ write_filter_ok minus_one_cnt = true /\ collect_filter_ok minus_one_cnt = true /\
+  name_getter_ok minus_one_cnt = true /\
+  (let m := run_ops (fun s => s) hist_ops (init_members [110]%N) in
+   count_written minus_one_cnt m = 1%Z /\ length (records (cc_write_filter minus_one_cnt) m) = 2%nat) /\
+  parse_bin iddec good_cfg 5 (export_raw idenc good_cfg minus_one_cnt 5 hist_rdoc) <> Some (map (abstract minus_one_cnt) hist_rdoc) /\
+  (forall name, count_written minus_one_cnt (init_members name) = 0%Z).
+Proof. exact count_minus_one_refuted. Qed.
+
+(** A writing loop that tests the attribute's case-preserved name instead of the dict key (the defect class repaired
+    in round 1): after [elem['NAME'] = 'x'] the only member is keyed "name", the count is 0, one record is written. *)
+Theorem attr_loop_on_real_name_refuted :
+  write_filter_ok real_name_cnt = false /\ count_expr_ok real_name_cnt = true /\
+  (let m := run_ops ascii_lower [OSet [78; 65; 77; 69]%N (VStr (Scalar [120]%N))] (init_members [110]%N) in
+   map fst m = [s_name] /\ count_written real_name_cnt m = 0%Z /\ length (records (cc_write_filter real_name_cnt) m) = 1%nat).
+Proof. exact write_filter_on_real_name_refuted. Qed.
